@@ -64,6 +64,7 @@ def group_cases(draw):
     pos, depths = draw(st.integers(0, 3)), draw(st.sampled_from([[0], [1], [0, 1], [1, 0], [0, 0], [-1, 0], [1, 1], [-1]]))
     go = draw(st.sampled_from([False, True, False]))
     axis1_list = draw(st.booleans())
+    axis1_mixed = draw(st.integers(0, 2)) == 2
     nk = draw(st.sampled_from([1, 2, 1]))
     n = draw(st.sampled_from([4, 3, 6, 2, 1, 0, 5, 7, 8, 9]))
     keys = [draw(key_column(n)) for _ in range(nk)]
@@ -82,7 +83,10 @@ def group_cases(draw):
             keys = keys[::-1]
     extra = draw(st.integers(1, 3))
     payload = draw(gen.blocks(n, extra, kinds=('int64', 'float64', '<U3', 'bool', 'object'), missing=False))
-    return {'what': what, 'keys': [k[0] for k in keys], 'kinds': [k[1] for k in keys], 'payload': payload, 'pos': pos,
+    # key row over columns of unlike dtypes, none of them object (the row resolves to object; no two cells collide as strings)
+    mixed_cells = [draw(st.sampled_from([('int64', 1), ('<U1', 'a'), ('int64', 2), ('<U1', 'b'), ('float64', 2.5), ('int64', 3), ('<U1', 'c'), ('float64', 0.5)]))
+                   for _ in range(n)] if (what == 'frame_axis1' and axis1_mixed) else None
+    return {'what': what, 'mixed_cells': mixed_cells, 'keys': [k[0] for k in keys], 'kinds': [k[1] for k in keys], 'payload': payload, 'pos': pos,
             'index': draw(gen.index_recipe(n, ('auto', 'int', 'str', 'date', 'ih'))), 'depths': depths, 'go': go, 'axis1_list': axis1_list}
 
 
@@ -226,6 +230,36 @@ def check_groups(case):
         # group columns by the values of one key row
         k = keys[0]
         m = n
+        if case.get('mixed_cells') and m >= 1:
+            # one key row over columns of unlike non-object dtypes (scalar key form; the list form of this corner is not generated)
+            cells = case['mixed_cells']
+            pad = {'int64': 7, '<U1': 'z', 'float64': 9.5}
+            f = sf.Frame.from_items([('c%d' % j, gen.freeze(np.array([v, pad[dt]], dtype=dt))) for j, (dt, v) in enumerate(cells)], index=('key', 'pad'))
+            if case.get('go'):
+                f = f.to_frame_go()
+                classes.append('go-source')
+            r = lib(lambda: list(f.iter_group_items('key', axis=1)))
+            if isinstance(r, Raised):
+                raise Failure('raised:%s' % r.cls, "iter_group_items('key', axis=1) over columns of dtypes %s raised %r" % (sorted({dt for dt, _ in cells}), r.exc), r.where)
+            groups = []
+            for gk, g in r:
+                if not isinstance(g, sf.Frame):
+                    raise Failure('kind', 'axis-1 group is %s' % short(g))
+                members = [int(str(c)[1:]) for c in obs.labels_of(g.columns)]
+                if obs.labels_of(g.index) != obs.labels_of(f.index):
+                    raise Failure('labels', 'axis-1 group %r index %s' % (gk, short(obs.labels_of(g.index))))
+                gcols = obs.frame_cols(g)
+                for q, p in enumerate(members):
+                    if not (0 <= p < m):
+                        raise Failure('labels', 'axis-1 group %r holds column c%d' % (gk, p))
+                    want = [cells[p][1], pad[cells[p][0]]]
+                    if not all(eq(a, b) for a, b in zip(arr_list(gcols[q]), want)) or len(arr_list(gcols[q])) != 2:
+                        raise Failure('value', 'axis-1 group %r column c%d holds %s expected %s' % (gk, p, short(gcols[q]), short(want)))
+                    if np.dtype(gcols[q].dtype) != np.dtype(cells[p][0]):
+                        raise Failure('dtype', 'axis-1 group %r column c%d has dtype %s expected %s' % (gk, p, gcols[q].dtype, cells[p][0]))
+                groups.append((gk, members))
+            _partition_check(groups, m, lambda p: cells[p][1], None, "Frame.iter_group_items('key', axis=1) over mixed column dtypes")
+            return {'nt': m >= 2 and len({dt for dt, _ in cells}) >= 2, 'cls': ['g:frame_axis1', 'axis1-mixed-dtypes', 'axis1-mixed-kinds:%d' % len({dt for dt, _ in cells})]}
         if len(keys) > 1 or k.dtype == object:
             # several key rows (or an object key row): the rows consolidate to an object frame; columns are identified by label
             nk = len(keys)
